@@ -136,7 +136,7 @@ class PlanJoinTablesQuery:
 
         # try to use default namespace
         integration = self.planner.default_namespace
-        if len(table.parts) > 0:
+        if len(table.parts) > 1:
             if isinstance(table.parts[0], str) and table.parts[0].lower() in self.planner.databases:
                 integration = table.parts.pop(0).lower()
             else:
